@@ -22,3 +22,559 @@ OBLIGATION_FILES = ["C12/Bridge.v", "C12/Refuted.v"]
 PROPS_FILE = "C12/Props.v"
 SHARD = 60
 PER_CASE_TIMEOUT = 150
+RULE = ("catalogue of every estimator that runs under the compat layer (series transformers incl. every "
+        "Imputer method and HampelFilter, panel transformers, forecasters incl. EnsembleForecaster / "
+        "StackingForecaster / grid search / AutoETS(auto) with n_jobs, BOSS-family classifiers) x 3 "
+        "inputs (clean, planted outliers, missing values) x containers (Series, DataFrame, nested "
+        "DataFrame, 3-D array) x index kinds; per case: deep comparison of every argument before/after "
+        "fit and each apply-type call, each call repeated and interleaved in reversed order, fit twice, "
+        "equal-parameter refit on equal data under a different global RNG state, n_jobs in {None,1,2} "
+        "(threading backend; 4 in thorough), pickle round trip; plus EnsembleForecaster with recording "
+        "members (observed completion schedule fed to the pool model), _get_intervals over a recorded "
+        "RNG stream, n_jobs=None acceptance. non-trivial = fit succeeded and at least one apply call "
+        "returned a value (pool: observed schedule is not the identity; intervals: >=1 interval); "
+        "distinct = distinct canonical JSON case")
+TRUSTED = [
+    "translator/sites_c12.py (Python ast -> Parallel call-site facts, fail closed): syntactic facts "
+    "only (generator form, keywords, how the result list is bound, whether an RNG object is shared "
+    "with the tasks, whether enclosing draws precede dispatch); joblib's own guarantee that "
+    "Parallel returns results in task order is the modelled contract, sampled by the n_jobs runs",
+    "the ownership model's reading of pandas: `Z = f(Z)` for copy/fillna/replace/apply/interpolate "
+    "allocates a new object, `Z[col] = ..` / `Z.iloc[j] = ..` write through the current object",
+    "digest comparison of results (sha1 of a canonical bit-exact snapshot, NaN canonicalised)",
+]
+MODELLED = [
+    "real thread interleavings, pickle and BLAS behaviour are NOT modelled: they are sampled by the "
+    "correspondence run (threading backend, n_jobs in {None,1,2[,4]}, pickle round trip); the proof "
+    "level covers the modelled logic only",
+    "estimator cases: the Coq side is only the ownership model's prediction `caller buffers "
+    "unchanged after every call' (copy-first program instantiated with the observed result); the "
+    "verdict on repeat/interleave/refit/n_jobs/pickle equality is the Python oracle",
+    "ownership programs of HampelFilter.transform / Imputer.transform are hand-written models of "
+    "the source (Model.v), tied by correspondence only",
+    "forecasters remember the last horizon passed to predict (C20's _set_fh, by design): every "
+    "predict call here passes its horizon explicitly",
+    "apply-type methods that write scratch attributes on self without changing any later result "
+    "(PlateauFinder._starts/_lengths, IndividualBOSS.transformer.words) are reported in the "
+    "distribution (`scratch-attrs:*`) but not failed; constructor parameters and RNG state must not "
+    "change",
+    "random_state is an int seed throughout (the quantifier says `seeds'): a shared RandomState "
+    "instance passed as random_state is outside the property",
+]
+NOT_RUNNABLE = [
+    "TimeSeriesForestClassifier / RandomIntervalSpectralForest / SupervisedTimeSeriesForest / "
+    "ComposableTimeSeriesForestClassifier (sklearn 1.7: ForestClassifier has no base_estimator): "
+    "covered statically by the site facts of both _tsf.py files and by running _get_intervals",
+    "TemporalDictionaryEnsemble, WEASEL (sklearn parameter validation rejects np.float64 max_depth)",
+    "BoxCoxTransformer, LogTransformer (boxcox.py imports a private scipy name that no longer exists)",
+    "MiniRocket, MiniRocketMultivariate (numpy 2: truth value of an array), MeanTransformer "
+    "(TypeError in the base-class output check), MatrixProfileTransformer / Catch22 / TSFresh* / "
+    "ARIMA / BATS / TBATS / Prophet / HCrystalBall (soft dependencies absent)",
+    "distance-based and shapelet-based classifiers (sklearn private import / missing mrseql extension)",
+    "reduction strategies direct / recursive / dirrec with stock regressors (numpy 2 refuses the "
+    "length-1 array assignment); multioutput runs",
+]
+
+
+def translate(repo):
+    from translator import sites_c12
+    return sites_c12.translate(repo)
+
+
+# ------------------------------------------------------------------------------------------------
+# catalogue (static part: usable without sktime)
+
+IMPUTER_METHODS = ["drift", "linear", "nearest", "constant", "mean", "median", "bfill", "ffill",
+                   "random", "forecaster"]
+
+CAT = {}
+
+
+def _reg(name, kind, **kw):
+    d = {"kind": kind, "nan": False, "frame": False, "n_jobs": False, "inverse": False, "slow": False}
+    d.update(kw)
+    CAT[name] = d
+
+
+_reg("Hampel-5", "series", nan=True, frame=True)
+_reg("Hampel-bool", "series", nan=True, frame=True)
+for _m in IMPUTER_METHODS:
+    _reg("Imputer-" + _m, "series", nan=True, frame=True)
+_reg("Imputer-sentinel", "series", nan=True, frame=True)
+_reg("Detrender", "series", inverse=True)
+_reg("Deseasonalizer-add", "series", inverse=True)
+_reg("Deseasonalizer-mul", "series", inverse=True)
+_reg("ConditionalDeseasonalizer", "series", inverse=True)
+_reg("ACF", "series")
+_reg("PACF", "series")
+_reg("Cosine", "series")
+_reg("Adaptor-MinMax", "series", inverse=True)
+_reg("Adaptor-Standard", "series", inverse=True)
+_reg("Passthrough-off", "series", inverse=True)
+_reg("Passthrough-on", "series", inverse=True)
+
+for _n in ["ColumnConcatenator", "DWT", "HOG1D", "TSInterpolator", "MatrixProfile", "Padding",
+           "PCA", "Tabularizer", "IntervalSegmenter", "RandomIntervalSegmenter",
+           "SlidingWindowSegmenter", "Slope", "Truncation", "PAA", "SAX", "Rocket",
+           "PlateauFinder", "DerivativeSlope", "RandomIntervalFeatureExtractor"]:
+    _reg(_n, "panel")
+_reg("SFA", "panel", n_jobs=True)
+_reg("ContractedShapelet", "panel", slow=True)
+
+for _n in ["Naive-last", "Naive-mean-sp", "Naive-drift", "Poly", "Theta", "ExpSmoothing", "AutoETS",
+           "TransformedTarget", "Multiplex", "Reduce-multioutput", "OnlineEnsemble"]:
+    _reg(_n, "forecaster")
+_reg("ExpSmoothing", "forecaster", slow=True)
+_reg("Ensemble-mean", "forecaster", n_jobs=True)
+_reg("Ensemble-median", "forecaster", n_jobs=True)
+_reg("Stacking", "forecaster", n_jobs=True)
+_reg("GridSearch", "forecaster", n_jobs=True)
+_reg("AutoETS-auto", "forecaster", n_jobs=True, slow=True)
+
+_reg("BOSSEnsemble", "classifier", n_jobs=True, slow=True)
+_reg("IndividualBOSS", "classifier", n_jobs=True)
+_reg("ContractableBOSS", "classifier", n_jobs=True, slow=True)
+_reg("MUSE", "classifier", n_jobs=True, slow=True)
+
+NJOBS_NONE = ["BOSSEnsemble", "ContractableBOSS", "IndividualBOSS", "MUSE", "SFA", "Ensemble-mean",
+              "Stacking", "GridSearch", "AutoETS-auto"]
+
+
+def make(name, seed, n_jobs="default"):
+    """Build the catalogue estimator `name` (driver side)."""
+    from sklearn.linear_model import LinearRegression
+    from sklearn.preprocessing import MinMaxScaler, StandardScaler
+    kw = {} if n_jobs == "default" else {"n_jobs": n_jobs}
+    if name.startswith("Hampel") or name.startswith("Imputer"):
+        from sktime.forecasting.naive import NaiveForecaster
+        from sktime.transformations.series.impute import Imputer
+        from sktime.transformations.series.outlier_detection import HampelFilter
+        if name == "Hampel-5":
+            return HampelFilter(window_length=5)
+        if name == "Hampel-bool":
+            return HampelFilter(window_length=4, n_sigma=2, return_bool=True)
+        m = name.split("-", 1)[1]
+        if m == "constant":
+            return Imputer(method="constant", value=7.5)
+        if m == "random":
+            return Imputer(method="random", random_state=seed)
+        if m == "forecaster":
+            return Imputer(method="forecaster", forecaster=NaiveForecaster(strategy="drift"))
+        if m == "sentinel":
+            return Imputer(method="mean", missing_values=-999.0)
+        return Imputer(method=m)
+    if name in ("Detrender", "Deseasonalizer-add", "Deseasonalizer-mul",
+                "ConditionalDeseasonalizer", "Passthrough-off", "Passthrough-on"):
+        from sktime.forecasting.trend import PolynomialTrendForecaster
+        from sktime.transformations.series.compose import OptionalPassthrough
+        from sktime.transformations.series.detrend import (ConditionalDeseasonalizer,
+                                                            Deseasonalizer, Detrender)
+        return {"Detrender": lambda: Detrender(PolynomialTrendForecaster(degree=1)),
+                "Deseasonalizer-add": lambda: Deseasonalizer(sp=4),
+                "Deseasonalizer-mul": lambda: Deseasonalizer(sp=4, model="multiplicative"),
+                "ConditionalDeseasonalizer": lambda: ConditionalDeseasonalizer(sp=4),
+                "Passthrough-off": lambda: OptionalPassthrough(Deseasonalizer(sp=4)),
+                "Passthrough-on": lambda: OptionalPassthrough(Deseasonalizer(sp=4),
+                                                              passthrough=True)}[name]()
+    if name in ("ACF", "PACF"):
+        from sktime.transformations.series.acf import (AutoCorrelationTransformer,
+                                                        PartialAutoCorrelationTransformer)
+        return (AutoCorrelationTransformer(n_lags=4) if name == "ACF"
+                else PartialAutoCorrelationTransformer(n_lags=4))
+    if name == "Cosine":
+        from sktime.transformations.series.cos import CosineTransformer
+        return CosineTransformer()
+    if name.startswith("Adaptor"):
+        from sktime.transformations.series.adapt import TabularToSeriesAdaptor
+        return TabularToSeriesAdaptor(MinMaxScaler() if name.endswith("MinMax") else StandardScaler())
+    if CAT[name]["kind"] == "panel":
+        import importlib
+        P = "sktime.transformations.panel."
+        table = {
+            "ColumnConcatenator": ("compose", "ColumnConcatenator", {}),
+            "DWT": ("dwt", "DWTTransformer", {}),
+            "HOG1D": ("hog1d", "HOG1DTransformer", {}),
+            "TSInterpolator": ("interpolate", "TSInterpolator", {"length": 10}),
+            "MatrixProfile": ("matrix_profile", "MatrixProfile", {"m": 5}),
+            "Padding": ("padder", "PaddingTransformer", {}),
+            "PCA": ("pca", "PCATransformer", {"n_components": 2}),
+            "Tabularizer": ("reduce", "Tabularizer", {}),
+            "IntervalSegmenter": ("segment", "IntervalSegmenter", {"intervals": 3}),
+            "RandomIntervalSegmenter": ("segment", "RandomIntervalSegmenter",
+                                        {"n_intervals": 3, "random_state": seed}),
+            "SlidingWindowSegmenter": ("segment", "SlidingWindowSegmenter", {"window_length": 5}),
+            "Slope": ("slope", "SlopeTransformer", {}),
+            "Truncation": ("truncation", "TruncationTransformer", {"lower": 3, "upper": 11}),
+            "PAA": ("dictionary_based", "PAA", {}),
+            "SAX": ("dictionary_based", "SAX", {}),
+            "SFA": ("dictionary_based", "SFA", dict(kw)),
+            "Rocket": ("rocket", "Rocket", {"num_kernels": 20, "random_state": seed}),
+            "PlateauFinder": ("summarize", "PlateauFinder", {}),
+            "DerivativeSlope": ("summarize", "DerivativeSlopeTransformer", {}),
+            "RandomIntervalFeatureExtractor": ("summarize", "RandomIntervalFeatureExtractor",
+                                               {"n_intervals": 3, "random_state": seed}),
+            "ContractedShapelet": ("shapelets", "ContractedShapeletTransform",
+                                   {"time_contract_in_mins": 0.004, "random_state": seed,
+                                    "verbose": 0}),
+        }
+        mod, cls, args = table[name]
+        return getattr(importlib.import_module(P + mod), cls)(**args)
+    if CAT[name]["kind"] == "forecaster":
+        from sktime.forecasting.compose import (EnsembleForecaster, MultiplexForecaster,
+                                                StackingForecaster, TransformedTargetForecaster,
+                                                make_reduction)
+        from sktime.forecasting.ets import AutoETS
+        from sktime.forecasting.exp_smoothing import ExponentialSmoothing
+        from sktime.forecasting.model_selection import (ForecastingGridSearchCV,
+                                                         SlidingWindowSplitter)
+        from sktime.forecasting.naive import NaiveForecaster
+        from sktime.forecasting.online_learning import OnlineEnsembleForecaster
+        from sktime.forecasting.theta import ThetaForecaster
+        from sktime.forecasting.trend import PolynomialTrendForecaster
+        from sktime.transformations.series.detrend import Deseasonalizer, Detrender
+
+        def members():
+            return [("last", NaiveForecaster()), ("poly", PolynomialTrendForecaster(degree=1)),
+                    ("mean", NaiveForecaster("mean", sp=4)), ("drift", NaiveForecaster("drift")),
+                    ("theta", ThetaForecaster(sp=4))]
+        table = {
+            "Naive-last": lambda: NaiveForecaster(),
+            "Naive-mean-sp": lambda: NaiveForecaster("mean", sp=4),
+            "Naive-drift": lambda: NaiveForecaster("drift"),
+            "Poly": lambda: PolynomialTrendForecaster(degree=2),
+            "Theta": lambda: ThetaForecaster(sp=4),
+            "ExpSmoothing": lambda: ExponentialSmoothing(trend="add", sp=4),
+            "AutoETS": lambda: AutoETS(),
+            "AutoETS-auto": lambda: AutoETS(auto=True, sp=4, **kw),
+            "TransformedTarget": lambda: TransformedTargetForecaster(
+                [("des", Deseasonalizer(sp=4)), ("det", Detrender()), ("f", NaiveForecaster())]),
+            "Multiplex": lambda: MultiplexForecaster(
+                [("a", NaiveForecaster()), ("b", PolynomialTrendForecaster())],
+                selected_forecaster="b"),
+            "Reduce-multioutput": lambda: make_reduction(LinearRegression(), strategy="multioutput",
+                                                         window_length=4),
+            "OnlineEnsemble": lambda: OnlineEnsembleForecaster(
+                [("a", NaiveForecaster()), ("b", PolynomialTrendForecaster())]),
+            "Ensemble-mean": lambda: EnsembleForecaster(members(), **kw),
+            "Ensemble-median": lambda: EnsembleForecaster(members(), aggfunc="median", **kw),
+            "Stacking": lambda: StackingForecaster(members()[:3], final_regressor=LinearRegression(),
+                                                   **kw),
+            "GridSearch": lambda: ForecastingGridSearchCV(
+                NaiveForecaster(), SlidingWindowSplitter(fh=[1, 2, 3], window_length=10),
+                {"strategy": ["last", "mean", "drift"]}, **kw),
+        }
+        return table[name]()
+    if CAT[name]["kind"] == "classifier":
+        from sktime.classification.dictionary_based import (MUSE, BOSSEnsemble, ContractableBOSS,
+                                                            IndividualBOSS)
+        table = {
+            "BOSSEnsemble": lambda: BOSSEnsemble(random_state=seed, max_ensemble_size=4, **kw),
+            "IndividualBOSS": lambda: IndividualBOSS(random_state=seed, window_size=8,
+                                                     word_length=4, **kw),
+            "ContractableBOSS": lambda: ContractableBOSS(random_state=seed, n_parameter_samples=8,
+                                                         max_ensemble_size=3, **kw),
+            "MUSE": lambda: MUSE(random_state=seed, **kw),
+        }
+        return table[name]()
+    raise KeyError(name)
+
+
+# ------------------------------------------------------------------------------------------------
+# input builders (pure functions of the case description; driver side)
+
+
+def series_data(n, variant, index, seed):
+    import numpy as np
+    import pandas as pd
+    r = np.random.RandomState(seed)
+    t = np.arange(n, dtype=float)
+    v = 20.0 + 0.5 * t + 3.0 * np.sin(t * 2 * np.pi / 4.0) + r.normal(0, 0.4, n)
+    v = np.round(v, 3)
+    if variant == "outliers":          # spikes near both ends and in the middle
+        for p in (1, n // 2, n - 2):
+            v[p] = v[p] + 60.0
+    if variant == "missing":           # NaN incl. first and last observation
+        for p in (0, 3, n // 2, n - 1):
+            v[p] = np.nan
+    if variant == "sentinel":
+        for p in (2, n // 2):
+            v[p] = -999.0
+    if index == "range":
+        idx = pd.RangeIndex(n)
+    elif index == "int":
+        idx = pd.Index(np.arange(5, 5 + n))
+    elif index == "datetime":
+        idx = pd.date_range("2001-01-31", periods=n, freq="M")
+    else:
+        idx = pd.period_range("2001-01", periods=n, freq="M")
+    return pd.Series(v, index=idx, name="y")
+
+
+def frame_data(n, variant, index, seed):
+    import pandas as pd
+    a = series_data(n, variant, index, seed)
+    b = series_data(n, variant, index, seed + 1) * 2.0 + 1.0
+    return pd.DataFrame({"a": a, "b": b})
+
+
+def panel_data(ninst, m, variant, container, seed, ncol=1):
+    import numpy as np
+    import pandas as pd
+    r = np.random.RandomState(seed)
+    X = np.zeros((ninst, ncol, m))
+    y = np.array([i % 2 for i in range(ninst)])
+    t = np.arange(m, dtype=float)
+    for i in range(ninst):
+        for c in range(ncol):
+            X[i, c] = np.round((1 + y[i]) * np.sin(t * 2 * np.pi / (6.0 + 3 * y[i]) + c)
+                               + r.normal(0, 0.3, m) + 0.05 * t * y[i], 3)
+    if variant == "outliers":
+        X[0, 0, 1] += 25.0
+        X[ninst - 1, 0, m - 1] -= 25.0
+    if variant == "missing":
+        X[1, 0, 2] = np.nan
+        X[ninst - 1, 0, m - 1] = np.nan
+    if container == "numpy3d":
+        return X, y
+    df = pd.DataFrame({"dim_%d" % c: [pd.Series(X[i, c].copy()) for i in range(ninst)]
+                       for c in range(ncol)})
+    if variant == "outliers":          # also: instance index not in sorted order
+        df.index = pd.Index(list(range(ninst))[::-1])
+    return df, y
+
+
+# ------------------------------------------------------------------------------------------------
+# deep snapshots (driver side)
+
+_NAN = 0x7FF8000000000000
+
+
+def _bits(x):
+    """float -> int (IEEE-754 bit pattern; every NaN mapped to one code)"""
+    x = float(x)
+    if x != x:
+        return _NAN
+    return struct.unpack("<q", struct.pack("<d", x))[0]
+
+
+def unbits(i):
+    return struct.unpack("<d", struct.pack("<q", int(i)))[0]
+
+
+def _vals(a):
+    import numpy as np
+    a = np.asarray(a)
+    if a.dtype.kind in "fiub":
+        return [_bits(x) for x in a.astype(float).ravel()]
+    out = []
+    for x in a.ravel():
+        if isinstance(x, (float, np.floating, int, np.integer)) and not isinstance(x, bool):
+            out.append(_bits(x))
+        else:
+            out.append(repr(x))
+    return out
+
+
+def _labels(idx):
+    import pandas as pd
+    if isinstance(idx, pd.DatetimeIndex):
+        return [int(x) // 10 ** 9 for x in idx.asi8]
+    if isinstance(idx, pd.PeriodIndex):
+        return [int(x) for x in idx.asi8]
+    out = []
+    for x in idx:
+        try:
+            out.append(int(x) if float(x) == int(x) else repr(x))
+        except (TypeError, ValueError, OverflowError):
+            out.append(repr(x))
+    return out
+
+
+def snap(obj):
+    """Canonical deep snapshot of an argument or a result: values (bit-exact), labels, dtype."""
+    import numpy as np
+    import pandas as pd
+    if obj is None:
+        return None
+    if isinstance(obj, pd.Series):
+        if obj.dtype == object and len(obj) and isinstance(obj.iloc[0], (pd.Series, np.ndarray)):
+            return {"t": "nested-col", "cells": [snap(c) for c in obj], "index": _labels(obj.index)}
+        return {"t": "series", "v": _vals(obj.values), "index": _labels(obj.index),
+                "dtype": str(obj.dtype), "name": repr(obj.name),
+                "freq": str(getattr(obj.index, "freqstr", None)),
+                "ikind": _ikind(obj.index)}
+    if isinstance(obj, pd.DataFrame):
+        return {"t": "frame", "columns": [repr(c) for c in obj.columns],
+                "cols": [snap(obj.iloc[:, j]) for j in range(obj.shape[1])],
+                "index": _labels(obj.index), "ikind": _ikind(obj.index)}
+    if isinstance(obj, np.ndarray):
+        return {"t": "array", "shape": list(obj.shape), "dtype": str(obj.dtype), "v": _vals(obj)}
+    if isinstance(obj, (list, tuple)):
+        return {"t": "list", "items": [snap(x) for x in obj]}
+    if isinstance(obj, dict):
+        return {"t": "dict", "items": [[repr(k), snap(v)] for k, v in sorted(
+            obj.items(), key=lambda kv: repr(kv[0]))]}
+    if isinstance(obj, (bool, np.bool_)):
+        return {"t": "bool", "v": [int(obj)]}
+    if isinstance(obj, (int, float, np.integer, np.floating)):
+        return {"t": "scalar", "v": [_bits(obj)]}
+    if isinstance(obj, str):
+        return {"t": "str", "v": obj}
+    return {"t": "other", "repr": type(obj).__name__}
+
+
+def _ikind(idx):
+    """index kind; a plain integer Index and a RangeIndex with equal labels are the same kind
+    (statsmodels adapters swap one for the other: labels and values unchanged, not a modification)"""
+    import pandas as pd
+    if isinstance(idx, pd.DatetimeIndex):
+        return "datetime"
+    if isinstance(idx, pd.PeriodIndex):
+        return "period"
+    if isinstance(idx, pd.RangeIndex) or idx.dtype.kind in "iu":
+        return "integer"
+    return str(idx.dtype)
+
+
+def digest(s):
+    import json
+    return hashlib.sha1(json.dumps(s, sort_keys=True).encode()).hexdigest()[:16]
+
+
+def diff(a, b, path=""):
+    """First difference between two snapshots, as a short string; None when equal."""
+    if a == b:
+        return None
+    if type(a) != type(b) or a is None or b is None:
+        return "%s: %s -> %s" % (path or "object", str(a)[:40], str(b)[:40])
+    if isinstance(a, dict):
+        if a.get("t") != b.get("t"):
+            return "%s: container %s -> %s" % (path, a.get("t"), b.get("t"))
+        for k in a:
+            if a[k] != b.get(k):
+                if isinstance(a[k], list) and isinstance(b.get(k), list):
+                    if len(a[k]) != len(b[k]):
+                        return "%s.%s: length %d -> %d" % (path, k, len(a[k]), len(b[k]))
+                    for i, (x, y) in enumerate(zip(a[k], b[k])):
+                        if x != y:
+                            if isinstance(x, (dict, list)):
+                                return diff(x, y, "%s.%s[%d]" % (path, k, i))
+                            if isinstance(x, int) and isinstance(y, int) and k == "v":
+                                return "%s.%s[%d]: %r -> %r" % (path, k, i, unbits(x), unbits(y))
+                            return "%s.%s[%d]: %r -> %r" % (path, k, i, x, y)
+                return "%s.%s: %s -> %s" % (path, k, str(a[k])[:40], str(b.get(k))[:40])
+    if isinstance(a, list):
+        if len(a) != len(b):
+            return "%s: length %d -> %d" % (path, len(a), len(b))
+        for i, (x, y) in enumerate(zip(a, b)):
+            if x != y:
+                return diff(x, y, "%s[%d]" % (path, i)) if isinstance(x, (dict, list)) else \
+                    "%s[%d]: %r -> %r" % (path, i, x, y)
+    return "%s: differs" % path
+
+
+def _cell(b):
+    """buffer cell for the Coq side: small even code for milli-exact values, odd code otherwise"""
+    if not isinstance(b, int):
+        return 3
+    if b == _NAN:
+        return 1
+    v = unbits(b)
+    m = round(v * 1000)
+    if abs(m) < 2 ** 40 and m / 1000.0 == v:
+        return 2 * m
+    return 2 * b + 1 if b != 0 else 0
+
+
+def flat(s):
+    """All cells of a snapshot (values, then index labels) as the `buffer` the Coq side sees."""
+    if s is None:
+        return []
+    t = s.get("t")
+    out = []
+    if t in ("series", "array", "scalar", "bool"):
+        out = [_cell(x) for x in s["v"]]
+        out += [2 * x if isinstance(x, int) else 3 for x in s.get("index", [])]
+    elif t == "nested-col":
+        for c in s["cells"]:
+            out += flat(c)
+        out += [2 * x if isinstance(x, int) else 3 for x in s.get("index", [])]
+    elif t == "frame":
+        for c in s["cols"]:
+            out += flat(c)
+    elif t == "list":
+        for c in s["items"]:
+            out += flat(c)
+    return out
+
+
+# ------------------------------------------------------------------------------------------------
+# estimator state digests (driver side)
+
+
+def _enc_state(o, d, seen, rng_only):
+    import numpy as np
+    import pandas as pd
+    if isinstance(o, np.random.RandomState):
+        st = o.get_state()
+        return "RS:" + hashlib.sha1(st[1].tobytes() + repr(st[2:]).encode()).hexdigest()[:12]
+    if isinstance(o, np.random.Generator):
+        return "G:" + hashlib.sha1(repr(o.bit_generator.state).encode()).hexdigest()[:12]
+    if o is None or isinstance(o, (bool, int, str, bytes)):
+        return "" if rng_only else repr(o)
+    if isinstance(o, (float, np.floating)):
+        return "" if rng_only else "f%d" % _bits(o)
+    if isinstance(o, np.integer):
+        return "" if rng_only else repr(int(o))
+    if isinstance(o, np.ndarray):
+        if o.dtype == object:
+            return "AO[" + ",".join(_enc_state(x, d + 1, seen, rng_only) for x in o.ravel()[:500]) + "]"
+        return "" if rng_only else "A%s%s:%s" % (
+            o.dtype, o.shape, hashlib.sha1(np.ascontiguousarray(o).tobytes()).hexdigest()[:12])
+    if isinstance(o, pd.Index):
+        return "" if rng_only else "I:" + hashlib.sha1(repr(_labels(o)).encode()).hexdigest()[:12]
+    if isinstance(o, (pd.Series, pd.DataFrame)):
+        return "" if rng_only else "P:" + digest(snap(o))
+    if d > 7:
+        return "..."
+    if isinstance(o, (list, tuple)):
+        return "[" + ",".join(_enc_state(x, d + 1, seen, rng_only) for x in o[:2000]) + "]"
+    if isinstance(o, dict):
+        items = sorted(o.items(), key=lambda kv: repr(kv[0]))
+        return "{" + ",".join("%s:%s" % (repr(k), _enc_state(v, d + 1, seen, rng_only))
+                              for k, v in items[:2000]) + "}"
+    if isinstance(o, (set, frozenset)):
+        return "S{" + ",".join(sorted(_enc_state(x, d + 1, seen, rng_only) for x in o)) + "}"
+    mod = type(o).__module__ or ""
+    if (mod.startswith("sktime") or mod.startswith("sklearn") or mod.startswith("props")) \
+            and hasattr(o, "__dict__"):
+        if id(o) in seen:
+            return "<cycle>"
+        seen.add(id(o))
+        return type(o).__name__ + "(" + ",".join(
+            "%s=%s" % (k, _enc_state(v, d + 1, seen, rng_only))
+            for k, v in sorted(vars(o).items()) if k != "_fh") + ")"
+    return "<%s>" % type(o).__name__
+
+
+def attr_digests(est):
+    """per-attribute digest of the known-type part of the estimator's state (`_fh`, the
+    remembered horizon, excluded: see MODELLED)"""
+    return {k: hashlib.sha1(_enc_state(v, 0, set(), False).encode()).hexdigest()[:12]
+            for k, v in sorted(vars(est).items()) if k != "_fh"}
+
+
+def params_digest(est):
+    try:
+        p = est.get_params(deep=True)
+    except Exception as e:  # noqa
+        return "get_params-error:" + type(e).__name__
+    return hashlib.sha1(_enc_state(p, 0, set(), False).encode()).hexdigest()[:12]
+
+
+def rng_digest(est):
+    """every RandomState reachable from the estimator's state, plus numpy's global RNG"""
+    import numpy as np
+    g = np.random.get_state()
+    own = _enc_state(vars(est), 0, set(), True)
+    return hashlib.sha1(own.encode() + g[1].tobytes() + repr(g[2:]).encode()).hexdigest()[:12]
